@@ -80,8 +80,12 @@ Theorem C10_folded_comma_list e0 r : r <> [] -> e0 <> [] -> has_suffix [nl] (e0 
   decode_list comma strip4 (read_conts (e0 ++ [comma]) (tail_lines r)) = e0 :: r.
 Proof.
   intros NE Hne Hs Fe Fl. rewrite (read_folded e0 r NE Hne Hs Fl). inversion Fe as [|? ? He0 Fr]; subst.
-  rewrite (C10_list_field comma strip4 strip4_comma); [cbn [map fst snd]; now rewrite tail_items_elts|discriminate|].
-  constructor; [split; [apply pad_nil|split; [apply pad_nil|exact He0]]|now apply tail_items_ok].
+  rewrite (C10_list_field comma strip4 strip4_comma); [cbn [map fst snd]; now rewrite tail_items_elts|discriminate| |].
+  - constructor; [split; [apply pad_nil|split; [apply pad_nil|exact He0]]|now apply tail_items_ok].
+  - (* the first element is not empty and does not start with a stripped byte *)
+    destruct e0 as [|c0 t0]; [congruence|]. destruct He0 as [_ Hl _].
+    apply (trim_ne_of_mem strip4 _ c0); [|exact Hl].
+    destruct (tail_items r) as [|it its]; cbn [render_list padded app]; now left.
 Qed.
 Print Assumptions C10_folded_comma_list.
 
